@@ -14,7 +14,7 @@ use serde_json::{Value, json};
 use vcore::{Ctx, Failure, Outcome, Part, Tier, ViolationRec, WorkerReport};
 
 use crate::alloc;
-use crate::damage::Dmg;
+use crate::damage::{Dmg, Fill};
 
 pub trait Target: Sync {
     type Spec: Debug + Clone + Serialize + DeserializeOwned + 'static;
@@ -236,6 +236,8 @@ impl<T: Target> Part for ExhaustivePart<T> {
                     plans.push(Dmg::Truncate { region: class.clone(), pos });
                     plans.push(Dmg::Set { region: class.clone(), pos, val: 0 });
                     plans.push(Dmg::Set { region: class.clone(), pos, val: 0xff });
+                    plans.push(Dmg::Run { region: class.clone(), pos, len: 64, fill: Fill::Zeros });
+                    plans.push(Dmg::Run { region: class.clone(), pos, len: 5, fill: Fill::Ones });
                     for d in plans {
                         let plan = vec![d];
                         let plan_json = serde_json::to_vec(&plan).unwrap_or_default();
